@@ -11,6 +11,7 @@ import (
 	"github.com/vicanso/pike/config"
 
 	"pikemc/env"
+	"pikemc/vsched"
 	"pikemc/vtime"
 )
 
@@ -593,6 +594,59 @@ func c15RewriteShapes(c *Ctx) {
 
 func c15Mix(c *Ctx) {
 	c15RewriteShapes(c)
+	// overlapping requests that are all forwarded (POST, PUT, GET of a key in its hit-for-pass period, cold uncacheable GET):
+	// each client receives the answer the origin gave to ITS request
+	{
+		pre := 2
+		if c.Thorough() {
+			pre = 3
+		}
+		cfgC := env.BasicConfig(config.CacheConfig{})
+		c.RunSched(Sched{
+			Name:   "overlapping-forwarded-requests",
+			Bounds: vsched.Bounds{Preempt: pre, Tick: 0, Data: -1, Total: -1},
+			Setup: func() ([]func(), func(*vsched.Exec) *vsched.Violation, func() string) {
+				e := getEnv(cfgC, "basic")
+				freshCaches(cfgC)
+				vtime.Set(vtime.Base)
+				vsched.ClockStart = vtime.Base
+				e.Respond = func(oc *env.OriginCall) env.OriginResp { return env.Uncacheable(oc, "answer to "+string(oc.Body)) }
+				e.Do(env.Req{URI: "/hfp", Rid: "pro"})
+				e.Events()
+				reqs := []env.Req{
+					{Method: "POST", URI: "/form", Body: []byte("first client's upload"), Rid: "t0"},
+					{Method: "GET", URI: "/hfp", Rid: "t1"},
+					{Method: "PUT", URI: "/form", Body: []byte("second client's upload, longer than the first one"), Rid: "t2"},
+				}
+				res := make([]*env.Result, len(reqs))
+				var bodies []func()
+				for i := range reqs {
+					i := i
+					bodies = append(bodies, func() { res[i] = e.Do(reqs[i]) })
+				}
+				var an *analysis
+				check := func(x *vsched.Exec) *vsched.Violation {
+					an = analyze(e.Events())
+					if x.Deadlock || x.Livelock || len(x.Panics) > 0 {
+						return nil
+					}
+					if v := an.selfCheck(); v != nil {
+						return v
+					}
+					for i, r := range res {
+						if r == nil {
+							continue
+						}
+						if _, _, _, _, payload, ok := env.ParseSelf(r.Body); !ok || payload != "answer to "+string(reqs[i].Body) {
+							return &vsched.Violation{Sig: "answer-of-another-request", Msg: fmt.Sprintf("%s %s with body %q received %q", r.Method, r.URI, reqs[i].Body, trunc(r.Body))}
+						}
+					}
+					return nil
+				}
+				return bodies, check, func() string { return an.summary() }
+			},
+		})
+	}
 	c15NoLeak(c)
 	c15ReloadUpstreamOption(c)
 	c15UpstreamEncodes(c)
